@@ -24,7 +24,8 @@ from harness import httpr_driver as D
 from harness import httpr_gen as G
 
 MC_Q = {"Modes": '{"server"}', "Heads": "{FALSE}", "RLs": "{1, 3}", "HOSTs": "{1, 4}", "FRs": "{1, 2, 3, 5}", "FR2s": "{1, 5}",
-        "XHs": "{1}", "BODYs": "{1, 2, 3, 4, 9}", "TAILs": "{1, 2}", "Dev": 1, "Sizes": "{1, 2, 5}"}
+        "XHs": "{1}", "BODYs": "{1, 2, 3, 4, 9}", "TAILs": "{1, 2}", "Dev": 1, "Sizes": "{1, 2, 5}",
+        "Timeouts": "{TRUE}", "Shuts": "{TRUE}"}
 GEN_Q = {"RLs": "{1, 2, 3, 5}", "HOSTs": "{1, 2, 4}", "FRs": "{1, 2, 3, 5, 9, 13}", "FR2s": "{1, 3, 5}", "XHs": "{1, 3}",
          "BLANKs": "{1}", "BODYs": "{1, 2, 3, 4, 6, 9, 11, 18}", "TAILs": "{1, 2}", "Dev": 1}
 GEN_T = {"RLs": "1..20", "HOSTs": "1..14", "FRs": "1..27", "FR2s": "1..7", "XHs": "1..14", "BLANKs": "{1, 2}",
@@ -94,7 +95,7 @@ def record_random(args):
 
 def run(ctx):
     # 1. model checking
-    H.vacuity(ctx, dict(MC_Q, RLs="{1}", HOSTs="{1}", FRs="{2}", FR2s="{1}", BODYs="{2}", TAILs="{2}", Dev=0, Sizes="{3, 20}"),
+    H.vacuity(ctx, dict(MC_Q, RLs="{1}", HOSTs="{1}", FRs="{2}", FR2s="{1}", BODYs="{2}", TAILs="{2}", Dev=0, Sizes="{30}"),
               ["arrive", "eof", "respond", "timeout", "shutdown"])
     mcq = dict(MC_Q)
     if not ctx.quick:
@@ -128,7 +129,7 @@ def run(ctx):
     ctx.cov["evaluations"] += runs + truns - len(items) - len(titems)
     ctx.cov["exhaustive"] = True
     # 3. code -> spec
-    n = ctx.pick(300, 20000)
+    n = ctx.pick(200, 20000)
     traces = framework.pool_map(record_random, [(i + 1, ctx.seed * 1000003 + 77 + i) for i in range(n)])
     H.validate(ctx, traces, H.classify_server)
     ctx.cov["rule"] = ("(a) %d token-grammar wires x {delegate, callback, web app, streaming web app} x peer close after every "
